@@ -1,6 +1,5 @@
 import Model.Params
 import Gen.Params
-import Props.GenTie.Subsidy
 import Props.GenTie.Params
 
 /-!
@@ -8,7 +7,8 @@ import Props.GenTie.Params
 
 All statements are about `Model.subsidy Gen.params`, i.e. about the constants regenerated from
 /repo on this run; `GenTie.get_block_subsidy_eq` identifies it with the code's
-`get_block_subsidy` as translated on this run, so each theorem is restated for `Gen.get_block_subsidy`.
+`get_block_subsidy` as translated on this run, and `Props/C16Code.lean` restates the theorems for
+`Gen.get_block_subsidy` / `Gen.validate_sashimi_range`.
 -/
 
 namespace Model
@@ -132,20 +132,6 @@ theorem limit_is_supply : P.maxSashimi = supply 31500000 := by
 theorem validator_limit (v : Nat) :
     sashimiInRange P v = decide (0 < v ∧ v ≤ supply 31500000) := by
   rw [← limit_is_supply]; rfl
-
-/-! ## the same, for the code's functions as translated on this run -/
-
-theorem code_subsidy_formula (h : Nat) :
-    Gen.get_block_subsidy h = 10 * 100000000 / 2 ^ (h / 1050000) := by
-  rw [GenTie.get_block_subsidy_eq]; exact subsidy_formula h
-
-theorem code_subsidy_antitone (h h' : Nat) (hle : h ≤ h') :
-    Gen.get_block_subsidy h' ≤ Gen.get_block_subsidy h := by
-  rw [GenTie.get_block_subsidy_eq, GenTie.get_block_subsidy_eq]; exact subsidy_antitone h h' hle
-
-theorem code_validator_limit (v : Nat) :
-    Gen.validate_sashimi_range v = decide (0 < v ∧ v ≤ supply 31500000) := by
-  rw [GenTie.validate_sashimi_range_eq]; exact validator_limit v
 
 /-! ## non-vacuity / spot values -/
 
